@@ -310,6 +310,7 @@ func run(c *harness.Ctx, i int) {
 	hostile := ""
 	var midRun func()
 	midRunAtFeeder := false
+	var cancelInValidation int64
 	cancelAtJob := int64(0)
 	if !useCLI && rng.Intn(4) == 0 {
 		switch rng.Intn(5) {
@@ -321,6 +322,11 @@ func run(c *harness.Ctx, i int) {
 				cancelAtJob = int64(len(idx.Chunks)) // at or behind the last segment (seeds merge chunks into fewer jobs)
 			}
 			hostile = "cancelled-at-a-job"
+			if rng.Intn(3) == 0 {
+				// ... or earlier, while the seeds are still being validated
+				cancelInValidation = int64(1 + rng.Intn(4))
+				hostile = "cancelled-in-validation"
+			}
 		case 3:
 			// a store that is not verified on reading (skip-verify) holding an object of the wrong length under one ID:
 			// the length recorded in the index is then the only thing between that object and the output
@@ -472,11 +478,16 @@ func run(c *harness.Ctx, i int) {
 	actx, acancel := context.WithCancel(context.Background())
 	defer acancel()
 	if cancelAtJob > 0 {
-		var jobs int64
+		var jobs, vhits int64
 		y.OnHit = func(point string, hn int64) {
 			// at the k-th job, and (the number of jobs is not known beforehand) at every job a little later on
 			if point == "assemble.worker.job" {
 				if j := atomic.AddInt64(&jobs, 1); j >= cancelAtJob || (j >= cancelAtJob/2 && j%3 == 0) {
+					acancel()
+				}
+			}
+			if cancelInValidation > 0 && (point == "validate.feeder" || point == "validate.worker.job") {
+				if atomic.AddInt64(&vhits, 1) >= cancelInValidation {
 					acancel()
 				}
 			}
